@@ -59,8 +59,10 @@ class Check:
             if (r, k) in seen:
                 continue
             seen.add((r, k))
-            if (r, k) in known_keys:
-                known_hit.append((r, k, d, l))
+            kb = k.split('@')[0]        # same construct seen in another cfg build
+            if (r, kb) in known_keys:
+                if (r, kb) not in {(a, b.split('@')[0]) for (a, b, _, _) in known_hit}:
+                    known_hit.append((r, kb, d, l))
             else:
                 unlisted.append((r, k, d, l))
         os.makedirs(REPDIR, exist_ok=True)
@@ -121,3 +123,22 @@ class Check:
             json.dump(ev, fh, indent=1)
         print('%s [%s]: %d obligations, %d hold, %d known findings, %d violations (%.1fs)' % (self.pid, self.tier, nob, nok, len(known_hit), len(unlisted), time.time() - self.t0))
         return rc
+
+
+class ConfigProxy:
+    """records the obligations of a run on another cfg build under keys suffixed with @config"""
+    def __init__(self, ck, cfg):
+        self.ck, self.cfg = ck, cfg
+        self.decided, self.undecided, self.notes = [], [], {}
+
+    def rule(self, rid, text):
+        pass
+
+    def ob(self, rule, key, ok, detail='', loc=None):
+        return self.ck.ob(rule, '%s@%s' % (key, self.cfg), ok, detail, loc)
+
+    def floor(self, rule, what, count, floor):
+        self.ck.notes.setdefault('instance_counts@' + self.cfg, {})['%s:%s' % (rule, what)] = count
+
+    def observe(self, text):
+        self.ck.observe('[%s] %s' % (self.cfg, text))
